@@ -21,9 +21,11 @@ func hasProp(props []string, p string) bool {
 }
 
 func contractServes(c *Contract, prop string) bool {
-	if c.Inline || c.Assumed {
+	if (c.Inline && c.Flags["standalone"] == "") || c.Assumed {
 		return false // loop annotations for a body that is verified inside its callers only
 	}
+	// `inline` + `flag standalone`: callers still execute the body; the function is verified against its own
+	// pre/postconditions as an entry as well
 	if prop == "C16" && c.Flags["noC16"] != "" {
 		return false // declared outside the access discipline (the reason is the flag's text; listed in DESIGN.md)
 	}
